@@ -638,11 +638,16 @@ def rule_continuation(ck, methods, all_acc):
                 v = bs[0] if len(bs) == 1 else None
             if v is None:
                 raise AnalysisError("C06.continuation: appended continuation text is not a uniquely bound expression")
-            okj = isinstance(v, ast.BinOp) and isinstance(v.op, ast.Add) and q.is_const(v.left, " ")
+            from ..x_resolve import concat_pieces
+            pieces = concat_pieces(v)
+            if pieces is None:
+                raise AnalysisError("C06.continuation: the appended continuation text %s is not a recognised concatenation" % q.unparse(v))
+            pieces = [resolve(pl, x) for x in pieces]
+            okj = len(pieces) == 2 and q.is_const(pieces[0], " ")
             n += 1
             ck.ob("C06.continuation", pl, st, okj, "the obs-fold is replaced by exactly one space: the appended text is ' ' + <stripped line> (RFC 9112 5.2)")
             if okj:
-                r = v.right
+                r = pieces[1]
                 okr = isinstance(r, ast.Call) and q.call_attr(r) == "strip" and q.dotted(r.func.value) == pl.params()[1] and len(r.args) == 1 and (q.dotted(r.args[0]) == "HTTP_WHITESPACE" or (isinstance(r.args[0], ast.Constant) and set(r.args[0].value) == set(" \t")))
                 n += 1
                 ck.ob("C06.continuation", pl, st, okr, "only HTTP whitespace (SP / HTAB) is stripped from the continuation line")
